@@ -18,6 +18,16 @@ def gen_cases(tier, seed):
                 r = max(r, 512)
                 w = max(w, 512)
             cases.append("%d %d %d %s %d %d %s" % (ln, w, r, rnd.choice(["rw", "wr"]), rnd.randrange(2), rnd.randrange(2), rnd.choice(["drop", "inner"])))
+    # the vectored entry points (poll_read_vectored / poll_write_vectored) and adapters living in slots that were used before; a second
+    # stream of random choices so that the cases above stay what they were
+    r2 = random.Random(seed * 31 + 5)
+    for ln in lens:
+        for _ in range(3 if tier == "quick" else 16):
+            w, r = r2.choice(chunks[1:]), r2.choice(chunks[1:])
+            if ln > 100000:
+                r, w = max(r, 512), max(w, 512)
+            cases.append("%d %d %d %s %d %d %s %d %d" % (ln, w, r, r2.choice(["rw", "wr"]), r2.randrange(2), r2.randrange(2), r2.choice(["drop", "inner"]),
+                                                     r2.choice([1, 1, 0]), r2.choice([0, 1, 2])))
     return cases
 
 
@@ -89,6 +99,8 @@ def main(tier, seed):
         return chk.finish()
     import p_dupadapt
     p_dupadapt.stage(chk, "C17")
+    import p_adaptkey
+    p_adaptkey.stage(chk, "C17")
     cases = gen_cases(tier, seed)
     impl, ilog = vlib.run_impl(["async"], cases, timeout=900)
     replays = []
@@ -162,7 +174,11 @@ def replay(path):
     if "dupadapt case" in open(path).read():
         import p_dupadapt
         return p_dupadapt.replay(path)
-    cases = [l.strip() for l in open(path) if len(l.split()) == 7 and l.split()[0].isdigit()]
+    if "adaptkey case" in open(path).read():
+        import p_adaptkey
+        return p_adaptkey.replay(path, "C17")
+    cases = [l.strip() for l in open(path) if len(l.split()) in (7, 9) and l.split()[0].isdigit() and l.split()[3] in ("rw", "wr")]
+    cases += [l.split("): ", 1)[1].strip() for l in open(path) if l.startswith("case (") and "): " in l]
     wcases = [l[5:].strip() for l in open(path) if l.startswith("ops: ")]
     wcases += [l.strip() for l in open(path) if l.split() and all(w in WOPS for w in l.split())]
     vlib.build_harness()
